@@ -21,10 +21,10 @@ TEXT_PROPS = ["SUMMARY", "DESCRIPTION", "LOCATION", "COMMENT", "CONTACT", "X-VER
 
 
 class G:
-    def __init__(self, rng, hostile=0.15, custom_tz=True, unknown=True, max_depth=4, api_safe=False, param_hostile=True, multi_resources=False):
+    def __init__(self, rng, hostile=0.15, custom_tz=True, unknown=True, max_depth=4, api_safe=False, param_hostile=True, multi_resources=False, api_custom_tz=False):
         self.rng = rng
         self.hostile = hostile
-        self.custom_tz = custom_tz and not api_safe
+        self.custom_tz = (custom_tz and not api_safe) or api_custom_tz
         self.unknown = unknown
         self.max_depth = max_depth
         self.api_safe = api_safe
@@ -508,6 +508,15 @@ def build(model, setters=None):
         comp.name = name
     else:
         comp = cls()
+    # (zones of this component's VTIMEZONE children are needed by its own and its other children's values)
+    prebuilt = {}
+    for s in subs:
+        if s[1] == "VTIMEZONE":
+            tzc = build(s, setters)
+            prebuilt[id(s)] = tzc
+            tzid = next((p[2][1] for p in s[2] if p[0].upper() == "TZID"), None)
+            if tzid is not None:
+                vals.CUSTOM_ZONES[tzid] = tzc.to_tz()
     counts = {}
     for pname, params, v in props:
         counts[pname.upper()] = counts.get(pname.upper(), 0) + 1
@@ -530,8 +539,14 @@ def build(model, setters=None):
                 # the same instant in another zone: add() must convert it to UTC (S7)
                 value = value.astimezone(vals.tzinfo_for(setters.choice(("zone:Asia/Tokyo", "zone:America/New_York", "zone:Australia/Lord_Howe"))))
             comp.add(pname, value, parameters=p or None)
+    # custom zones first: a VTIMEZONE of the model is built through the API, turned into a tzinfo with to_tz() and
+    # that tzinfo is what zoned values "custom:<tzid>" of the model carry
     for s in subs:
-        comp.add_component(build(s, setters))
+        if s[1] == "VTIMEZONE":
+            comp.add_component(prebuilt[id(s)])
+    for s in subs:
+        if s[1] != "VTIMEZONE":
+            comp.add_component(build(s, setters))
     return comp
 
 
